@@ -58,6 +58,7 @@ var badUTF8 = []string{"\xff", "\xc3", "\xe2\x82", "\xed\xa0\x80", "\xc0\xaf", "
 var domainAtoms = []string{
 	"example.net", "example.com", "a", "localhost", "EXAMPLE.NET", "im.example.org", "a.b.c", "x-y.z", "-a", "a-", "ab--c", "a_b",
 	"b\u00fccher.example", "B\u00dcCHER.example", "fa\u00df.de", "\u03c3\u03bf\u03c2.gr", "\u03a3\u039f\u03a3.gr", "\u043f\u0440\u0438\u043c\u0435\u0440.\u0440\u0444", "\u4e2d\u6587.cn", "\u05d0\u05d1.il", "\u0627\u0644.\u0645\u0635\u0631", "\uff45\uff58\uff41\uff4d\uff50\uff4c\uff45.\uff4e\uff45\uff54", "ex\u00adample.net", "e\u0301.fr",
+	"xn--xn--bcher-kva-.de", "XN--XN--BCHER-KVA-.de", "www.xn--xn--mnchen-3ya-.example.", "xn--xn--xn--bcher-kva--.de", "xn--XN--fa-hia-.de", "r3---sn-apo3qvuoxuxbt-j5pe.example", "ab--cd.example", "-a.example", "a-.example",
 	"xn--bcher-kva.example", "XN--BCHER-KVA.example", "xn--fa-hia.de", "xn--nxasmq6b", "xn--e1afmkfd.xn--p1ai", "xn--80ak6aa92e.com", "xn--", "xn--a", "xn---", "xn--0", "xn--zz", "xn--a-", "xn--ls8h.la", "xn--bcher-kva.", "xn--4ca.xn--4ca", "xn--mnchen-3ya", "xn--MNCHEN-3ya", "xn--ab", "xn--\u00fc",
 	"127.0.0.1", "1.2.3.4", "255.255.255.255", "256.1.1.1", "1.2.3", "01.2.3.4", "1.2.3.4.", "\uff11.2.3.4", "0x7f.1", "1.2.3.4.5",
 	"[::1]", "[::]", "[2001:db8::ff00:42:8329]", "[2001:DB8::1]", "[0:0:0:0:0:0:0:1]", "[::ffff:1.2.3.4]", "[1.2.3.4]", "::1", "[::1", "::1]", "[fe80::1%25eth0]", "[fe80::1%eth0]", "[::1].", "[]", "[:]", "[::g]",
@@ -192,10 +193,137 @@ func genResource(r *rand.Rand) string {
 	}
 }
 
+// punycode encodes a label (RFC 3492) without the ACE prefix.
+func punycode(label string) string {
+	const base, tmin, tmax, skew, damp = 36, 1, 26, 38, 700
+	digit := func(d int) byte {
+		if d < 26 {
+			return byte('a' + d)
+		}
+		return byte('0' + d - 26)
+	}
+	adapt := func(delta, numPoints int, first bool) int {
+		if first {
+			delta /= damp
+		} else {
+			delta /= 2
+		}
+		delta += delta / numPoints
+		k := 0
+		for delta > ((base-tmin)*tmax)/2 {
+			delta /= base - tmin
+			k += base
+		}
+		return k + (base-tmin+1)*delta/(delta+skew)
+	}
+	rs := []rune(label)
+	var out []byte
+	for _, c := range rs {
+		if c < 0x80 {
+			out = append(out, byte(c))
+		}
+	}
+	h := len(out)
+	b := h
+	if b > 0 {
+		out = append(out, '-')
+	}
+	n, delta, bias := 128, 0, 72
+	for h < len(rs) {
+		m := rune(0x7fffffff)
+		for _, c := range rs {
+			if int(c) >= n && c < m {
+				m = c
+			}
+		}
+		delta += (int(m) - n) * (h + 1)
+		n = int(m)
+		for _, c := range rs {
+			if int(c) < n {
+				delta++
+			}
+			if int(c) == n {
+				q := delta
+				for k := base; ; k += base {
+					t := k - bias
+					if t < tmin {
+						t = tmin
+					} else if t > tmax {
+						t = tmax
+					}
+					if q < t {
+						break
+					}
+					out = append(out, digit(t+(q-t)%(base-t)))
+					q = (q - t) / (base - t)
+				}
+				out = append(out, digit(q))
+				bias = adapt(delta, h+1, h == b)
+				delta = 0
+				h++
+			}
+		}
+		delta++
+		n++
+	}
+	return string(out)
+}
+
+var uLabels = []string{"b\u00fccher", "m\u00fcnchen", "fa\u00df", "\u03c3\u03bf\u03c2", "\u043f\u0440\u0438\u043c\u0435\u0440", "\u4e2d\u6587", "\u00e9", "\u05d0\u05d1", "a\u00fc-b", "\u00fc"}
+
+var acePrefixes = []string{"xn--", "xn--", "XN--", "Xn--", "xN--"}
+
+// encodedLabel returns a U-label Punycode-encoded once, twice or three times
+// (an A-label of an A-label: the encoding of an all-ASCII label is the label
+// followed by a hyphen), with prefixes in either case.
+func encodedLabel(r *rand.Rand) (string, int) {
+	label := pick(r, uLabels)
+	if r.Intn(4) == 0 {
+		label = benign(r)
+	}
+	levels := 1 + r.Intn(3)
+	for i := 0; i < levels; i++ {
+		label = pick(r, acePrefixes) + punycode(label)
+	}
+	if r.Intn(4) == 0 {
+		label = strings.ToUpper(label)
+	}
+	return label, levels
+}
+
+var hyphenLabels = []string{"ab--cd", "a---b", "-ab", "ab-", "-", "--", "a--", "r3---sn-apo3qvuoxuxbt-j5pe", "ab--", "xn--", "xn---", "x--y", "-xn--bcher-kva", "xn--bcher-kva-", "xn--xn--", "aa--\u00fc", "\u00fc--a", "\u00fc-", "-\u00fc"}
+
+// genEncodedDomain builds a domain around multiply encoded A-labels and labels
+// with hyphens in every placement.  It reports what it used.
+func genEncodedDomain(r *rand.Rand) (dom string, multiply, hyphen bool) {
+	var labels []string
+	for i, n := 0, 1+r.Intn(3); i < n; i++ {
+		switch r.Intn(5) {
+		case 0, 1:
+			l, lv := encodedLabel(r)
+			multiply = multiply || lv > 1
+			labels = append(labels, l)
+		case 2:
+			hyphen = true
+			labels = append(labels, pick(r, hyphenLabels))
+		default:
+			labels = append(labels, pick(r, []string{"www", "example", "de", "net", "a", "im"}))
+		}
+	}
+	dom = strings.Join(labels, ".")
+	if r.Intn(4) == 0 {
+		dom += pick(r, dotAtoms)
+	}
+	return dom, multiply, hyphen
+}
+
 func genDomain(r *rand.Rand) string {
 	switch x := r.Intn(100); {
 	case x < 3:
 		return ""
+	case x < 13:
+		d, _, _ := genEncodedDomain(r)
+		return d
 	case x < 40:
 		return pick(r, domainAtoms)
 	case x < 65:
